@@ -5,6 +5,7 @@ CONSTANTS
   ExitOnFlag = TRUE
   LearnOnTerminal = TRUE
   DrainOnEnd = FALSE
+  RewardTotal = TRUE
 SPECIFICATION Spec
 INVARIANT NoPhantomLearn
 INVARIANT Attribution
